@@ -163,7 +163,29 @@ def run_case(ctx, case):
                 cause = "array_shift_by_del"
             elif rel in ("same", "ancestor", "descendant") and cause == "other":
                 cause = "direct_%s_%s" % (o[0], rel)
-        ctx.violation("read_only_modified:%s:%s" % (what, cause),
+        if cause == "other":
+            # an insertion below a value that is not the container its next segment needs replaces
+            # that value by a fresh container (and pads arrays with nulls): the protected path that
+            # "did not exist" inside the scalar now exists
+            root = ev if ro_entry[0] == "." else md
+            for o in muts:
+                if o[0] != "insert" or o[4]["prefix"] != ro_entry[0]:
+                    continue
+                o_segs = [[("f" if "f" in sg else "i"), sg.get("f", sg.get("i"))] for sg in o[4]["segs"]]
+                k = 0
+                while k < min(len(ro_entry[1]), len(o_segs)) and ro_entry[1][k] == o_segs[k]:
+                    k += 1
+                if k >= len(o_segs) or k >= len(ro_entry[1]):
+                    continue
+                at = mv.get(root, [(a, b) for a, b in ro_entry[1][:k]])
+                need = "array" if o_segs[k][0] == "i" else "object"
+                if at[0] and tag(at[1]) != need:
+                    cause = "container_type_replaced"
+                    break
+                if at[0] and need == "array":
+                    cause = "array_padding"
+                    break
+        ctx.violation("read_only_modified:%s" % cause,
                       {"src": src, "read_only": ro_req, "path": text, "recursive": rec,
                        "before": repr(before)[:200], "after": repr(after)[:200],
                        "mutations": [o[:2] for o in muts[:8]], "event": repr(ev)[:400]},
